@@ -21,6 +21,8 @@ type Request struct {
 	Replay  bool              `json:"replay"`
 	KeepLog bool              `json:"keeplog"`
 	Opts    map[string]string `json:"opts,omitempty"`
+	// DumpTape: file that receives the tape values as they are consumed (crash triage)
+	DumpTape string `json:"dump_tape,omitempty"`
 }
 
 // RunOne executes one simulated run (inside a synctest bubble unless the check opts out).
@@ -30,6 +32,9 @@ func RunOne(t *testing.T, c *Check, req *Request) *Outcome {
 		tape = ReplayTape(req.Tape)
 	} else {
 		tape = NewTape(req.Seed)
+	}
+	if req.DumpTape != "" {
+		tape.DumpTo(req.DumpTape)
 	}
 	rc := NewRunCtx(tape, req.Prop, req.Tier, req.KeepLog, req.Opts)
 	body := func() {
